@@ -100,11 +100,42 @@ def _match(spec, impl):
     a = spec.split(); b = impl.split()
     return len(a) == len(b) and all(x == y or x == 'c:*' for x, y in zip(a, b))
 
+def gen_real_reload(rng):
+    """collectors whose filter sits behind a REAL reload::Subscriber (h_race `newr`), reloaded with the real Handle::reload (`rl`)
+    from two or three threads while callsites are hit for the first time"""
+    css = rng.sample(range(30), rng.choice([1, 2]))
+    N = 'n' * 30
+    pre = ['new 20 %sh-' % N, 'newr 21 %s' % _c04.spec_for(rng, css), 'newr 22 %s' % _c04.spec_for(rng, css)]
+    nthreads = rng.choice([2, 2, 3])
+    threads = []
+    for t in range(nthreads):
+        ops = []
+        if rng.random() < 0.6: ops.append('hit %d' % rng.choice(css))
+        ops.append('rl %d %s' % (21 + (t % 2), _c04.spec_for(rng, css)) if (t < 2 or rng.random() < 0.5) else 'hit %d' % rng.choice(css))
+        if rng.random() < 0.3: ops.append('hit %d' % rng.choice(css))
+        head = rng.choice(['', '@21 ', '@22 '])
+        threads.append(head + ' , '.join(ops))
+    sched = ''.join(str(rng.randrange(nthreads)) for _ in range(rng.choice([8, 16, 30])))
+    return 'pre: ' + ' , '.join(pre) + ' | ' + ' | '.join(threads) + ' ;; ' + sched
+
+def systematic_real_reload(tier):
+    """a registered callsite, then two overlapping reloads on two threads: every schedule with at most 1 (thorough: 2) preemptions"""
+    N = 'n' * 30; A = 'a' + 'n' * 29
+    # (the first reload leaves everybody saying `never` for the callsite, so that a verdict cached by ITS rebuild is `never`;
+    #  the second one makes its collector want the callsite)
+    res = []
+    for first, second in ((N + 'h1', A + 'h-'), (A + 'h-', A + 'h-')):
+        base = 'pre: new 20 %sh- , newr 21 %sh- , newr 22 %sh- | hit 0 , rl 21 %s | rl 22 %s' % (N, N, N, first, second)
+        res += [base + ' ;; ' + sch for sch in _c04.preemption_schedules(2, [12, 5], 1 if tier == 'quick' else 2)]
+    return res
+
 def extra(tier, seed, rng, res, broken):
     """a reload (mutate, then rebuild — the order extracted from Handle::modify) racing with first-hit registrations on other
     threads, under generated schedules; judged by C04's transition system and the quiescent oracle"""
     n = 60 if (tier == 'quick' and not broken) else 600
-    cases = M.corpus_cases('C12', 'race') + [_c04.gen_scenario(rng, force_mut=True) for _ in range(n)]
+    deep = 'quick' if (tier == 'quick' and not broken) else 'thorough'
+    cases = M.corpus_cases('C12', 'race') + [_c04.gen_scenario(rng, force_mut=True) for _ in range(n)] + \
+            [gen_real_reload(rng) for _ in range(n // 2)] + systematic_real_reload(deep)
     outs, err = M.run_per_process([M.bin_path('h_race')], cases, timeout=30)
     if err:
         res.errors.append('race stream: %s' % err); return
@@ -114,9 +145,9 @@ def extra(tier, seed, rng, res, broken):
     hard = []; soft = []
     for c, o, v in zip(cases, outs, verdicts):
         res.evaluations += 1
-        k = 'race reload=%s first-hit=%s' % ('y' if 'mutated' in o else 'n', 'y' if 'register:computed' in o else 'n')
+        k = 'race reload=%s real-handle=%s first-hit=%s' % ('y' if ('mutated' in o or 'modify:unlocked' in o) else 'n', 'y' if 'modify:unlocked' in o else 'n', 'y' if 'register:computed' in o else 'n')
         res.hist[k] = res.hist.get(k, 0) + 1
-        if 'mutated' in o and 'register:computed' in o: res.nontrivial.add('race ' + c)
+        if ('mutated' in o or 'modify:unlocked' in o) and 'register:computed' in o: res.nontrivial.add('race ' + c)
         if v != 'ok':
             (hard if ('stranded' in v or 'DEADLOCK' in v or 'PANIC' in v or 'wrong-delivery' in v) else soft).append(('race', c, o, 'judge ' + v))
     res.spec_failures.extend(hard if hard else soft)
